@@ -304,7 +304,8 @@ Inductive event :=
 | ERecvSub (p : N) (sub : subscription) (since until : N)
 | EElapse (dt : N)                              (* clock advances, then wake() *)
 | ECmdAnnounceRefs (rid : N)
-| ECmdAddInventory (rid : N).
+| ECmdAddInventory (rid : N)
+| ETick (now : N).                              (* Service::tick: a clock reading, possibly in the past *)
 
 (* Outbox::announce for our own announcements *)
 Definition announce_own (c : config) (s : state) (a : ann) (peers : list N) : outcome :=
@@ -434,6 +435,10 @@ Definition step (c : config) (s : state) (e : event) : outcome :=
           | Panic n => Panic n
           end
       end
+  | ETick now =>
+      (* `if now >= self.clock { self.clock = now }` — earlier readings are ignored *)
+      Ok (set_times s (if N.leb (clock s) now then now else clock s)
+                    (last_inventory s) (last_gossip s) (last_announce s)) []
   end.
 
 (* run a trace, collecting the outputs of every step *)
